@@ -244,6 +244,38 @@ static void backend_concurrent()
 }
 
 namespace pt = pika::threads::detail;
+// FIFO back-end, more consumers than elements: n elements (1-2), three consumers pop once each at the same time
+template <int NMAX>
+static void fifo_three_consumers()
+{
+    pt::lockfree_fifo_backend<int> q(8);
+    int n = NMAX > 1 ? 1 + pmc_choose(NMAX, 0) : 1;
+    int warm = pmc_choose(2, 0);    // 1: the sub-queue has been used before (one push/pop)
+    if (warm) { q.push(99); int v; PMC_ASSERT(q.pop(v) && v == 99, "be-order", "warm-up pop returned %d", v); }
+    for (int i = 1; i <= n; ++i) PMC_ASSERT(q.push(i), "be-push", "push failed");
+    int got[3] = {0, 0, 0};
+    std::vector<std::thread> th;
+    for (int c = 0; c < 3; ++c)
+        th.emplace_back([&, c] { int v = -1; if (q.pop(v)) got[c] = v; });
+    for (auto& t : th) t.join();
+    int count[4] = {0, 0, 0, 0}, successes = 0;
+    for (int c = 0; c < 3; ++c)
+        if (got[c] != 0)
+        {
+            PMC_ASSERT(got[c] >= 1 && got[c] <= n, "invented-or-duplicate", "a consumer got %d, which was never put in (n=%d)", got[c], n);
+            PMC_ASSERT(++count[got[c]] == 1, "invented-or-duplicate", "element %d was handed to two consumers", got[c]);
+            ++successes;
+        }
+    // drain: everything not yet taken comes out now, exactly once, and then the queue is empty
+    for (int i = 1; i <= n; ++i)
+        if (!count[i]) { int v = -1; PMC_ASSERT(q.pop(v), "quiescent-pop-failed", "element %d is still inside but a quiescent pop failed", i); PMC_ASSERT(v >= 1 && v <= n && ++count[v] == 1, "invented-or-duplicate", "drain returned %d", v); }
+    int v = -1;
+    PMC_ASSERT(!q.pop(v), "invented-or-duplicate", "pop on the drained queue returned %d", v);
+    // the queue is still usable: a later element comes out
+    PMC_ASSERT(q.push(7) && q.pop(v) && v == 7, "quiescent-pop-failed", "an element pushed after the race did not come out (got %d)", v);
+    pmc_outcome("n=%d successes=%d", n, successes);
+}
+
 int main(int argc, char** argv)
 {
     static const char* dsites = "concurrency/include/pika/concurrency/deque.hpp|boost/lockfree/detail/freelist.hpp|concurrency/detail/freelist.hpp";
@@ -263,6 +295,8 @@ int main(int argc, char** argv)
         {"dq_3x1", dq_concurrent<3, 1, 4>, 1, 3, 0.2, 0.2, 1, "F-site: deque.hpp / freelist", dsites, nullptr},
         {"dq_3x2", dq_concurrent<3, 2, 4>, 0, 1, 0.05, 0.2, 1, "F-site: deque.hpp / freelist", dsites, nullptr},
         {"be_fifo_2p1c", backend_concurrent<pt::lockfree_fifo_backend<int>, 2, 1>, 1, 2, 0.06, 0.1, 1, "F-site: all atomics in concurrentqueue.hpp", cqsites, nullptr},
+        {"be_fifo_3c", fifo_three_consumers<1>, 3, -1, 0.35, 0, 1, "F-site: ImplicitProducer::dequeue only (the consumers' tickets and over-commit counters); three consumers, fewer elements than consumers", "ImplicitProducer::dequeue", nullptr},
+        {"be_fifo_3c_n2", fifo_three_consumers<2>, -1, 3, 0, 0.2, 1, "the same with 1-2 elements", "ImplicitProducer::dequeue", nullptr},
         {"be_fifo_1p2c", backend_concurrent<pt::lockfree_fifo_backend<int>, 1, 2>, 1, 2, 0.06, 0.1, 1, "F-site: concurrentqueue.hpp", cqsites, nullptr},
         {"be_abp_lifo_1p2c", backend_concurrent<pt::lockfree_abp_lifo_backend<int>, 1, 2>, 1, 2, 0.06, 0.05, 1, "F-site: deque.hpp / freelist", dsites, nullptr},
     };
@@ -273,7 +307,7 @@ int main(int argc, char** argv)
     cfg.rule = "deque / back-ends: initial content x all op words for the threads (data choices) x all schedules within the deviation bound; sequential histories to depth 5 against std::deque";
     cfg.assumptions = assumptions;
     cfg.n_assumptions = 3;
-    cfg.quick_budget_s = 60;
+    cfg.quick_budget_s = 90;
     cfg.thorough_budget_s = 900;
     return pmc_main(argc, argv, &cfg, specs, sizeof specs / sizeof specs[0]);
 }
